@@ -160,6 +160,9 @@ type World struct {
 	started bool
 	stopped bool
 	closers []func()
+	// LockProbeErr: why the erasure-coding lock probe could not be built (the
+	// seam then falls back to its self-kept lock model); nil otherwise.
+	LockProbeErr error
 }
 
 // NewRunDir makes a fresh directory for a run.
@@ -438,6 +441,11 @@ func (w *World) buildStack(name string, spec StackSpec) (partstore.PartStore, er
 		}
 		lm := w.seam(ec, name+".ec")
 		lm.LockModel = true
+		if probe, perr := ecLockProbe(ec); perr == nil {
+			lm.LockProbe = probe
+		} else {
+			w.LockProbeErr = perr
+		}
 		cur = lm
 		layers = layers[1:]
 	} else {
